@@ -1629,18 +1629,22 @@ Proof.
     + destruct H as [<-|H]; [left; reflexivity|right; apply IH; exact H].
 Qed.
 
-Theorem improve_and_recompute_total changed : NoDup changed -> (forall v, In v changed -> is_vehicle s v = true) ->
-  RoomN nw (Z.of_nat (length changed)) (s_usage s) ->
+(* improve_and_recompute succeeds as soon as its improve_depots step does (with the frame facts of that step) *)
+Lemma improve_and_recompute_from_depots changed : NoDup changed -> (forall v, In v changed -> is_vehicle s v = true) ->
+  (exists s', improve_depots nw s (Some changed) = Ok s' /\
+    s_vehicles s' = s_vehicles s /\ s_ids s' = s_ids s /\
+    VPart nw (s_vehicles s) (s_tours s') (s_ids s) /\
+    TOK nw (s_trans s') (tfn nw (s_tours s')) (s_ids s)) ->
   exists s', improve_and_recompute nw s changed = Ok s'.
 Proof.
-  intros N HV RM. unfold improve_and_recompute.
+  intros N HV HD. unfold improve_and_recompute.
   match goal with |- exists s', bind (fold_left ?f ?l ?a) _ = _ =>
     destruct (fold_total f (fun tys => forall ty, In ty tys -> In ty (type_ids nw)) l) with (s := @nil Z) as (tys & -> & Htys) end.
   { intros acc v Hv Q. cbn [bind]. destruct (veh_facts nw s G v (HV v Hv)) as (ty & t & Hty & Ity & _).
     unfold vehicle_type_of. rewrite Hty. cbn [ok_or_err bind]. eexists. split; [reflexivity|].
     intros ty' Hin. apply in_app_or in Hin. destruct Hin as [Hin|[<-|[]]]; [apply Q; exact Hin|exact Ity]. }
   { intros ty []. }
-  cbn [bind]. destruct (improve_depots_total changed N HV RM) as (s1 & -> & EV & EI & VP1 & T1). cbn [bind].
+  cbn [bind]. destruct HD as (s1 & -> & EV & EI & VP1 & T1). cbn [bind].
   match goal with |- exists s', bind (fold_left ?f ?l ?a) _ = _ =>
     destruct (fold_total f (fun pos => forall ty, In ty pos -> In ty (type_ids nw)) l) with (s := @nil Z) as (pos & -> & Hpos) end.
   { intros acc ty Hty Q. cbn [bind]. destruct (T1 ty (Htys ty Hty)) as (tr & -> & _). cbn [unwrap_opt bind].
@@ -1660,6 +1664,12 @@ Proof.
       inversion Hin; subst. rewrite Z.eqb_refl in Q. discriminate.
   - intros ty Hty. apply dedup_z_in in Hty. apply Hpos in Hty. destruct (T1 ty Hty) as (tr & -> & _). discriminate.
   - cbn [bind]. eauto.
+Qed.
+Theorem improve_and_recompute_total changed : NoDup changed -> (forall v, In v changed -> is_vehicle s v = true) ->
+  RoomN nw (Z.of_nat (length changed)) (s_usage s) ->
+  exists s', improve_and_recompute nw s changed = Ok s'.
+Proof.
+  intros N HV RM. apply improve_and_recompute_from_depots; auto. apply improve_depots_total; auto.
 Qed.
 End I.
 
